@@ -83,6 +83,19 @@ def run_state(case):
     last_trade_vol = 0
     feat = {"asym": 0, "arrays": 0, "steps": 0, "dicts": 0}
 
+    # price band at the very top / bottom of the price range (C19 quantifies over all book states): index k of the
+    # generated band 92..108 is moved so that the highest ask index is the last grid price <= 2^32-1 (shift 1) or
+    # the lowest bid index is 0 (shift 2)
+    shift = case.get("shift", 0)
+    top = MAXU32 // tick
+
+    def kmap(k):
+        if shift == 1:
+            return max(top - max(108 - k, 0), 0)
+        if shift == 2:
+            return max(k - 92, 0)
+        return k
+
     def place(bid, vol, trader, price):
         if numpy_api:
             env.submit_limit_orders((np.array([bid], dtype=bool), np.array([vol], dtype=np.uint32), np.array([trader], dtype=np.uint32), np.array([price], dtype=np.uint32)))
@@ -116,7 +129,7 @@ def run_state(case):
         quiet = bool((quiet_mask >> (step % 64)) & 1) and step != len(ops) - 1
         if op[0] == "place":
             _, bid, vol, trader, k = op
-            place(bid, vol, trader, k * tick)
+            place(bid, vol, trader, kmap(k) * tick)
         elif op[0] == "cancel":
             n = len(env.get_orders())
             if n:
@@ -176,7 +189,7 @@ def run_state(case):
     if fills:
         feat["frames_with_fills"] = 1
     nontrivial = feat["asym"] >= 1
-    return nontrivial, {"array_states": 1, "end_to_end_frames_with_fills": feat.get("frames_with_fills", 0), "arrays_checked": feat["arrays"], "steps": feat["steps"], "asymmetric_audits": feat["asym"], "asymmetric_audits_with_distinct_nonzero_traded_volume": feat.get("asym_with_trade_vol", 0), "dictionaries_checked": feat["dicts"], "numpy_api_cases": int(numpy_api)}
+    return nontrivial, {"array_states": 1, "states_at_the_top_of_the_price_range": int(shift == 1), "states_at_the_bottom_of_the_price_range": int(shift == 2), "end_to_end_frames_with_fills": feat.get("frames_with_fills", 0), "arrays_checked": feat["arrays"], "steps": feat["steps"], "asymmetric_audits": feat["asym"], "asymmetric_audits_with_distinct_nonzero_traded_volume": feat.get("asym_with_trade_vol", 0), "dictionaries_checked": feat["dicts"], "numpy_api_cases": int(numpy_api)}
 
 
 def state_case_st():
@@ -206,7 +219,7 @@ def state_case_st():
     sparse = st.one_of(st.just(("step",)), st.just(("step",)), st.just(("step",)), st.just(("step",)), bid, ask, st.tuples(st.just("cancel"), st.integers(0, 65535)))
     long_run = st.tuples(prefix, st.lists(sparse, min_size=150, max_size=420)).map(lambda t: t[0] + t[1] + [("step",)])
     ops = st.integers(0, 9).flatmap(lambda k: long_run if k == 0 else short)
-    return st.fixed_dictionaries({"tick": st.integers(1, 10), "seed": st.integers(0, 2**32), "step_size": st.sampled_from([100, 1000, 10**6]), "numpy_api": st.booleans(), "ops": ops, "quiet": st.one_of(st.just(0), st.integers(0, 2**64 - 1))})
+    return st.fixed_dictionaries({"shift": st.sampled_from([0, 0, 0, 0, 0, 0, 1, 1, 2]), "tick": st.one_of(st.integers(1, 10), st.sampled_from([1, 3, 5])), "seed": st.integers(0, 2**32), "step_size": st.sampled_from([100, 1000, 10**6]), "numpy_api": st.booleans(), "ops": ops, "quiet": st.one_of(st.just(0), st.integers(0, 2**64 - 1))})
 
 
 # ---------------------------------------------------------------------------------------------
